@@ -524,23 +524,25 @@ class Lexer(object):
     ) + keywords
 
     # adapted from https://bitbucket.org/ned/jslex
+    # line terminators never occur inside a regular expression literal
+    # (7.8.5: RegularExpressionNonTerminator)
     t_regex_REGEX = r"""(?:
         /                       # opening slash
         # First character is..
-        (?: [^*\\/[]            # anything but * \ / or [
-        |   \\.                 # or an escape sequence
+        (?: [^*\\/[\n\r\u2028\u2029]   # anything but * \ / [ or newline
+        |   \\[^\n\r\u2028\u2029]      # or an escape sequence
         |   \[                  # or a class, which has
-                (?: [^\]\\]     # anything but \ or ]
-                |   \\.         # or an escape sequence
+                (?: [^\]\\\n\r\u2028\u2029]   # anything but \ ] newline
+                |   \\[^\n\r\u2028\u2029]     # or an escape sequence
                 )*              # many times
             \]
         )
         # Following characters are same, except for excluding a star
-        (?: [^\\/[]             # anything but \ / or [
-        |   \\.                 # or an escape sequence
+        (?: [^\\/[\n\r\u2028\u2029]    # anything but \ / [ or newline
+        |   \\[^\n\r\u2028\u2029]      # or an escape sequence
         |   \[                  # or a class, which has
-                (?: [^\]\\]     # anything but \ or ]
-                |   \\.         # or an escape sequence
+                (?: [^\]\\\n\r\u2028\u2029]   # anything but \ ] newline
+                |   \\[^\n\r\u2028\u2029]     # or an escape sequence
                 )*              # many times
             \]
         )*                      # many times
